@@ -54,6 +54,11 @@ def array_cases(draw):
         c["m"] = draw(st.integers(2, 400))
         c["rseed"] = draw(st.integers(0, 2 ** 31 - 1))
         c["rbad"] = draw(st.lists(st.integers(0, 399), max_size=3))
+        # the reporting period on a local clock (rows stamped at local midnight / on the local hour), starting on any day:
+        # the number of calendar months it touches is a local-calendar notion
+        c["rtz"] = draw(st.sampled_from(["UTC", "UTC", "Europe/Berlin", "Asia/Tokyo", "America/Chicago", "Australia/Sydney", "Pacific/Auckland"]))
+        c["rstart"] = draw(st.sampled_from(["2020-01-01", "2020-01-01", "2021-03-01", "2019-11-01", "2020-06-15", "2021-01-31"]))
+        c["m"] = draw(st.one_of(st.integers(2, 400), st.sampled_from([28, 31, 59, 90, 91, 181])))
     return c
 
 
@@ -233,7 +238,14 @@ def judge_arrays(c, rec):
         if mm < 2:  # a reporting frame without two finite pairs is degenerate
             rec.case(c, False, cls + ["reporting-degenerate"])
             return
-        idx = pd.date_range("2020-01-01", periods=m, freq="D" if c["freq"] != "hourly" else "h", tz="UTC")
+        if c.get("rtz"):
+            if c["freq"] == "hourly":
+                idx = pd.date_range(pd.Timestamp(c["rstart"], tz=c["rtz"]).tz_convert("UTC"), periods=m, freq="h").tz_convert(c["rtz"])
+            else:
+                idx = pd.DatetimeIndex([pd.Timestamp(d).tz_localize(c["rtz"]) for d in pd.date_range(c["rstart"], periods=m, freq="D")])
+            cls.append("reporting-zone=" + ("UTC" if c["rtz"] == "UTC" else "east" if c["rtz"] in ("Europe/Berlin", "Asia/Tokyo", "Australia/Sydney", "Pacific/Auckland") else "west"))
+        else:
+            idx = pd.date_range("2020-01-01", periods=m, freq="D" if c["freq"] != "hourly" else "h", tz="UTC")
         rdf = pd.DataFrame({"observed": ro, "predicted": rp}, index=idx)
         rm = ReportingMetrics(baseline_metrics=bm, reporting_df=rdf, data_frequency=c["freq"], confidence_level=c["conf"], t_tail=c["tail"])
         rd = rm.model_dump()
@@ -410,7 +422,9 @@ def judge_daily(c, rec):
 def caltrack_cases(draw):
     n = draw(st.integers(5, 400))
     return {"kind": "caltrack", "n": n, "seed": draw(st.integers(0, 2 ** 31 - 1)), "p": draw(st.integers(1, 4)),
-            "nan": draw(st.lists(st.integers(0, n - 1), max_size=3)), "scale": draw(st.sampled_from([0.01, 1.0, 1000.0]))}
+            "nan": draw(st.lists(st.integers(0, n - 1), max_size=3)), "scale": draw(st.sampled_from([0.01, 1.0, 1000.0])),
+            # hours without a prediction (other hours than the meter gaps; often as many of them)
+            "nan_pred": draw(st.lists(st.integers(0, n - 1), max_size=3)), "same_count": draw(st.booleans())}
 
 
 def judge_caltrack(c, rec):
@@ -423,6 +437,12 @@ def judge_caltrack(c, rec):
     p = o + rng.normal(0, 1, n) * c["scale"]
     for i in c["nan"]:
         o[i] = np.nan
+    npred = [i for i in c.get("nan_pred", []) if i not in c["nan"]]
+    if c.get("same_count") and c["nan"]:
+        # exactly as many prediction gaps as meter gaps, each one row after a meter gap
+        npred = sorted({(i + 1) % n for i in c["nan"]} - set(c["nan"]))
+    for i in npred:
+        p[i] = np.nan
     mm = ModelMetrics(pd.Series(o, index=idx), pd.Series(p, index=idx), num_parameters=c["p"])
     R = ref_metrics(o, p, c["p"])
     if R["n"] >= 3:
@@ -435,7 +455,7 @@ def judge_caltrack(c, rec):
         den = R["n"] - c["p"]
         if den > 0 and not close(float(mm.rmse_adj), math.sqrt(R["sse"] / den), 1e-8, 1e-12):
             rec.violation("caltrack/rmse_adj", c, "%r vs %r" % (mm.rmse_adj, math.sqrt(R["sse"] / den)))
-    rec.case(c, len(c["nan"]) > 0, ["sub=caltrack"])
+    rec.case(c, len(c["nan"]) > 0, ["sub=caltrack", "prediction-gaps=%d" % min(len(npred), 3), "gap-counts-equal=%d" % (len(npred) == len(set(c["nan"])) > 0)])
 
 
 JUDGES = {"arrays": judge_arrays, "hourly": judge_hourly, "daily": judge_daily, "caltrack": judge_caltrack}
